@@ -15,6 +15,9 @@ def run(prop, tier):
         for sc in QUICK + (THOROUGH if tier == "thorough" else []):
             p = 2 if (tier == "quick" or len(sc) > 3) else 3
             jobs.append(dict(src=SRC, rwlock=rw, args=["rw", "-p", p, "-s", 1, "--"] + list(sc), script=sc))
+        if tier == "quick":      # two readers queued behind one writer and a second writer arriving later need four threads (no spurious wake-ups here: 20 k executions)
+            jobs.append(dict(src=SRC, rwlock=rw, args=["rw", "-p", 2, "-s", 0, "--", "R", "R", "W", "W"], script=("R", "R", "W", "W")))
+        jobs.append(dict(src=SRC, rwlock=rw, args=["nest", "-p", 3, "-s", 1], script=()))
     jobs.append(dict(src=SRC, rwlock="posix", args=["relock"], script=()))
     acc = mcsched.run_jobs(prop, tier, jobs)
     # existential clause: readers are shared - in (R,R,W) some schedule must have two readers inside at the same time
@@ -31,7 +34,8 @@ def run(prop, tier):
                                 "happens-before monitor, every thread finishes (deadlock / lost wake-up), trylock never waits for a holder, exists a schedule with two concurrent readers; "
                                 "non-trivial = executions in which a lock call had to wait or a trylock raced")
     return common.finish(prop, tier, "model_checking", acc, cov, mcsched.ASSUME + [
-        "the pthread rwlock model grants a read lock whenever no writer holds the lock (union of reader- and writer-preferring behaviours); harnesses never take read locks recursively"], t0, extra=extra)
+        "the pthread rwlock model grants a read lock whenever no writer holds the lock (glibc default); a lock created with PTHREAD_RWLOCK_PREFER_WRITER_NONRECURSIVE_NP makes new readers wait "
+        "behind a waiting writer while readers hold the lock; harnesses never take read locks recursively in one thread (the nest job does it across threads)"], t0, extra=extra)
 
 
 replay = mcsched.replay
